@@ -140,11 +140,19 @@ Arguments mkcontour {T}. Arguments beta {T}. Arguments sphere_points {T}. Argume
 Local Open Scope float_scope.
 
 Definition fclose (a b : float) : bool :=
-  fbits_eq a b ||
+  if fbits_eq a b then true else
   PrimFloat.leb (abs (a - b)) (0x1.12e0be826d695p-30 * (if PrimFloat.ltb (abs a) (abs b) then abs b else abs a)).
 
+(* bit equality (all nan identified), cheap on the common path; lazy list comparison (vm_compute is strict) *)
+Definition feq (a b : float) : bool :=
+  if PrimFloat.eqb a b then (if PrimFloat.eqb a 0 then fbits_eq a b else true)
+  else if PrimFloat.eqb a a then false else negb (PrimFloat.eqb b b).
 Fixpoint list_eqb {A} (e : A -> A -> bool) (a b : list A) : bool :=
-  match a, b with [] , [] => true | x :: a', y :: b' => e x y && list_eqb e a' b' | _, _ => false end.
+  match a, b with
+  | [] , [] => true
+  | x :: a', y :: b' => if e x y then list_eqb e a' b' else false
+  | _, _ => false
+  end.
 
 (* recorded oracle tables; a key is looked up bit-exactly first, then to 1e-9 relative; a key the
    implementation never asked for yields nan (reported as a structural disagreement by the harness) *)
@@ -162,20 +170,20 @@ Section Tables.
 End Tables.
 
 Definition tab1 := list (float * float).
-Definition flook (t : tab1) (k : float) : float := look2 float float nan fbits_eq fclose t k.
+Definition flook (t : tab1) (k : float) : float := look2 float float nan feq fclose t k.
 (* template table: ((parameter values, argument), result) *)
 Definition tabT := list ((list float * float) * float).
 Definition keyT_eq (e : float -> float -> bool) (a b : list float * float) : bool :=
-  list_eqb e (fst a) (fst b) && e (snd a) (snd b).
+  if e (snd a) (snd b) then list_eqb e (fst a) (fst b) else false.
 Definition tlook (t : tabT) (th : list float) (k : float) : float :=
-  look2 (list float * float) float nan (keyT_eq fbits_eq) (keyT_eq fclose) t (th, k).
+  look2 (list float * float) float nan (keyT_eq feq) (keyT_eq fclose) t (th, k).
 Definition chi2look (t : list ((float * nat) * float)) (p : float) (df : nat) : float :=
-  look2 (float * nat) float nan (fun a b => fbits_eq (fst a) (fst b) && Nat.eqb (snd a) (snd b))
+  look2 (float * nat) float nan (fun a b => feq (fst a) (fst b) && Nat.eqb (snd a) (snd b))
         (fun a b => fclose (fst a) (fst b) && Nat.eqb (snd a) (snd b)) t (p, df).
 (* tables keyed by a whole NSphere state *)
 Definition state_eq (e : float -> float -> bool) (a b : list (list float)) : bool := list_eqb (list_eqb e) a b.
 Definition slook {V} (miss : V) (t : list (list (list float) * V)) (k : list (list float)) : V :=
-  look2 (list (list float)) V miss (state_eq fbits_eq) (state_eq fclose) t k.
+  look2 (list (list float)) V miss (state_eq feq) (state_eq fclose) t k.
 Definition nsph_look (t : list ((nat * nat) * list (list float))) (dim n : nat) : list (list float) :=
   look2 (nat * nat) (list (list float)) [] (fun a b => Nat.eqb (fst a) (fst b) && Nat.eqb (snd a) (snd b))
         (fun _ _ => false) t (dim, n).
